@@ -97,6 +97,20 @@ func c19MetaHeaderFields(c *Ctx) {
 		for _, ci := range v.Calls("(encoding/binary.bigEndian).PutUint32") {
 			word = ci.In.Common().Args[len(ci.In.Common().Args)-1]
 		}
+		// the word may be packed by a helper method of the same value (m.pack()): analyse that
+		if call, isCall := word.(*ssa.Call); isCall {
+			if h := call.Common().StaticCallee(); h != nil && h.Blocks != nil && h.Pkg == v.Fn.Pkg && len(call.Common().Args) == 1 && v.S.Sym(call.Common().Args[0]) == "recv" {
+				var rets []ssa.Value
+				for _, b := range h.Blocks {
+					if r, isR := b.Instrs[len(b.Instrs)-1].(*ssa.Return); isR && len(r.Results) == 1 {
+						rets = append(rets, r.Results[0])
+					}
+				}
+				if len(rets) == 1 {
+					v, word = ViewOf(c, h), rets[0]
+				}
+			}
+		}
 		if c.Check(word != nil, rule, v.Name()+":word", v.Fn.Pos(), "the line is written with one PutUint32") {
 			var bad []string
 			seen := map[string]bool{}
@@ -153,6 +167,24 @@ func c19MetaHeaderFields(c *Ctx) {
 			"recv.SegLen[1]": {6, 0x3f},
 			"recv.SegLen[2]": {0, 0x3f},
 		}
+		// the members may be set by a helper method of the same value (m.unpack(Uint32(raw)))
+		if len(v.Stores("recv.CurrHF")) == 0 {
+			for _, b := range v.Fn.Blocks {
+				for _, in := range b.Instrs {
+					call, ok := in.(ssa.CallInstruction)
+					if !ok {
+						continue
+					}
+					h := call.Common().StaticCallee()
+					if h == nil || h.Blocks == nil || h.Pkg != v.Fn.Pkg || len(call.Common().Args) != 2 || v.S.Sym(call.Common().Args[0]) != "recv" {
+						continue
+					}
+					if _, isWord := call.Common().Args[1].(*ssa.Call); isWord && len(ViewOf(c, h).Stores("recv.CurrHF")) > 0 {
+						v = ViewOf(c, h)
+					}
+				}
+			}
+		}
 		var bad []string
 		n := 0
 		for _, st := range v.Stores("recv.*") {
@@ -197,5 +229,6 @@ func shiftMaskOf(v ssa.Value) (shift, mask uint64, ok bool) {
 		}
 	}
 	_, isCall := v.(*ssa.Call)
-	return shift, mask, isCall
+	_, isParam := v.(*ssa.Parameter) // inside an unpack(line) helper the word is the parameter
+	return shift, mask, isCall || isParam
 }
